@@ -247,6 +247,7 @@ func clientScenarios(out *cq.Out, rng *cq.Rng, seed uint64, tier string) {
 		s := newScripted(ns)
 		s.leader = rng.Intn(ns)
 		discovery := rng.Intn(2) == 0
+		revive := rng.Intn(2) == 0
 		pref := rng.Intn(5)
 		if sc == 0 { // every node refuses with a 4xx (e.g. wrong API key) while discovery is on
 			discovery = true
@@ -261,7 +262,7 @@ func clientScenarios(out *cq.Out, rng *cq.Rng, seed uint64, tier string) {
 				secs = append(secs, s.servers[i].URL)
 			}
 		}
-		desc := map[string]interface{}{"scenario": sc, "seed": seed, "servers": ns, "leader": s.leader, "believed": believed, "discovery": discovery, "pref": prefNames[pref]}
+		desc := map[string]interface{}{"scenario": sc, "seed": seed, "servers": ns, "leader": s.leader, "believed": believed, "discovery": discovery, "revive": revive, "pref": prefNames[pref]}
 		var c *client.HTTPClient
 		done := make(chan struct{})
 		var steps []string
@@ -270,7 +271,7 @@ func clientScenarios(out *cq.Out, rng *cq.Rng, seed uint64, tier string) {
 			var err error
 			c, err = client.NewHTTPClient(client.SetHttpClient(&http.Client{Timeout: 2 * time.Second}),
 				client.SetURLs(s.servers[believed].URL, secs...), client.SetReadPreference(client.ReadPref(pref)),
-				client.SetTopologyDiscovery(discovery), client.SetHealthChecks(false), client.SetMaxRetries(0), client.SetAPIKey("k"), client.SetHasherFunction(hashing.NewSha256Hasher))
+				client.SetTopologyDiscovery(discovery), client.SetAttemptToReviveEndpoints(revive), client.SetHealthChecks(false), client.SetMaxRetries(0), client.SetAPIKey("k"), client.SetHasherFunction(hashing.NewSha256Hasher))
 			if err != nil {
 				return
 			}
@@ -315,6 +316,23 @@ func clientScenarios(out *cq.Out, rng *cq.Rng, seed uint64, tier string) {
 					if !strings.HasPrefix(lastPost, fmt.Sprintf("%d:", leader)) {
 						out.Violate("C20:write-not-at-leader", fmt.Sprintf("a write was acknowledged by node %s although node %d is the leader", lastPost, leader), desc)
 					}
+				}
+			}
+			// convergence: every node healthy again; with discovery the client must find the leader within a few writes
+			s.mu.Lock()
+			for i := range s.mode {
+				s.mode[i] = "ok"
+			}
+			leader := s.leader
+			s.mu.Unlock()
+			if discovery && revive {
+				var last error
+				for k := 0; k < 4; k++ {
+					_, last = c.Add("y")
+				}
+				if last != nil {
+					desc["steps"] = steps
+					out.Violate("C20:no-convergence-on-leader", fmt.Sprintf("all nodes healthy, leader is node %d, discovery and endpoint revival enabled, yet the 4th consecutive write still fails: %v", leader, last), desc)
 				}
 			}
 		}()
